@@ -1,4 +1,5 @@
 #![allow(dead_code)]
+mod alloc_guard;
 mod core;
 mod panics;
 mod registry;
@@ -6,6 +7,10 @@ mod rng;
 mod rsim;
 mod supervisor;
 mod worker;
+mod wsim;
+
+#[global_allocator]
+static GLOBAL: alloc_guard::Guard = alloc_guard::Guard;
 
 use crate::core::Tier;
 
